@@ -140,9 +140,10 @@ def run_c07(prop, tier, seed, replay):
         for t in traces:
             if ncan >= 4:
                 break
-            if len(t) >= 4 and len(t[-2]["st"]) >= 2:
+            hbs = [i for i, r in enumerate(t) if r["op"] == "hb"]
+            if len(hbs) >= 2 and len(t[hbs[-1]]["st"]) >= 2:
                 t2 = copy.deepcopy(t)
-                t2[-2]["st"][-1]["dur"] += 2      # an earlier event silently altered
+                t2[hbs[-1]]["st"][-1]["dur"] += 2      # an earlier event silently altered
                 traces.append(t2)
                 ncan += 1
     acc, rej, stats = tlc.judge("AwHeartbeatTrace", JUDGE, traces, tag="judge_c07", chunk=6000)
